@@ -53,13 +53,6 @@ theorem normGroup_renderGroup (g : GroupD) : normGroup (renderGroup g) = normGro
 
 /-! ### exits and categories -/
 
-/-- the exit a category is connected to by `RouterCategory.from_dict` -/
-def exitOf (exits : List ExitD) (u : Str) : ExitD :=
-  (exits.find? (fun e => e.uuid == u)).getD { uuid := [], dest := none }
-
-def catImage (exits : List ExitD) (c : CategoryD) : CatC :=
-  { uuid := c.uuid, name := c.name, exit := exitOf exits c.exitUuid }
-
 theorem loadExit_ok (e : ExitD) (h : validExit e = true) : loadExit e = .ok e := by
   simp [validExit] at h
   simp [loadExit, h.1]
